@@ -83,6 +83,9 @@ func (ex *Exec) buildQueryOpt(o *Obligation, modelTerms []*smt.Term, linearize b
 		smt.Symbols(a, used, seen)
 	}
 	asserts = append(asserts, ex.W.StrFacts(used)...)
+	if used["iface_nil"] {
+		asserts = append(asserts, c.Eq(c.App("iface_tag", smt.Int, c.Const("iface_nil", ex.W.Iface)), c.IntLit(0)))
+	}
 	footer := "(check-sat)\n"
 	if len(modelTerms) > 0 {
 		var sb strings.Builder
